@@ -211,3 +211,22 @@ def run_case(c):
     if isinstance(res, TT) and not viol and R_expect is not None and [int(r) for r in res.R] != list(R_expect):
         viol.append(V(site + '.rank_law', 'ranks %s, documented %s' % (res.R, R_expect)))
     return Outcome(key, nt, 'R=%s' % (res.R if isinstance(res, TT) else '?'), violations=viol)
+
+
+# ------------------------------------------------------------------------------------------------ second tier: histories
+# every history of depth 2 (3 thorough) whose last event belongs to this property, on the explicit-state explorer; the last
+# event is compared with its dense definition on the operands as they are in that state (ttmc/history_tier.py)
+from .. import history_tier as _ht
+
+_cases_e1, _run_case_e1 = cases, run_case
+
+
+def cases(tier, seed):
+    yield from _cases_e1(tier, seed)
+    yield from _ht.cases(PROPERTY, tier)
+
+
+def run_case(c):
+    if c.get('g') == 'E2':
+        return _ht.run_case(PROPERTY, c)
+    return _run_case_e1(c)
